@@ -94,7 +94,7 @@ pub fn run_case(ctx: &mut Ctx, case: &Value) {
     let sets = gen_redactions(&mut rng, &ic, false);
     let kbkey = holder_kb_key();
     let kbp = KbParams { aud: "aud", key: &kbkey, alg: Algorithm::RS256 };
-    for r in sets.iter().take(5) {
+    for r in sets.iter().take(7) {
         let mut c2 = case.clone();
         c2["redactions"] = json!([r]);
         let kept = kept_ids(&ic, r);
